@@ -141,6 +141,11 @@ def step (s : St) (line : String) : St × String :=
       let (mon', j) := judgeResult s.sys.cfg s.mon sender t ok st'
       ({ sys := sys', mon := mon' }, verdictOf j model impl)
     | _, _, _ => (s, "BADLINE")
+  | ["threads", _n, _calls] =>
+    -- any number of racing callers on an open breaker whose timeout has passed: the model admits the
+    -- first and rejects all others (`half_open_single_probe`)
+    if impl == "admitted=1 H" then (s, "ok")
+    else (s, s!"JUDGE C45 racing threads on a half-open breaker: {impl} (exactly one probe may be admitted)")
   | ["start", sender, _kind, ids, t] =>
     match sender.toNat?, parseIds ids, t.toNat?, iw with
     | some sender, some evs, some t, head :: st' :: rest =>
